@@ -419,6 +419,8 @@ class Translator:
                 return True
             if e.func.attr in ("all", "any") and len(e.args) == 1:
                 return self.static(e.args[0])
+        if isinstance(e, ast.Name) and e.id in getattr(self, "static_names", {}):
+            return self.static_names[e.id]
         if isinstance(e, ast.Compare) and len(e.ops) == 1 and isinstance(e.ops[0], (ast.Is, ast.IsNot)) \
                 and isinstance(e.left, ast.Name) and isinstance(e.comparators[0], ast.Constant) and e.comparators[0].value is None:
             k = getattr(self, "presence", {}).get(e.left.id)
@@ -564,6 +566,22 @@ class Translator:
                         assigned.append(nm)
                     return True
                 raise Refusal(f"tuple assignment: {first}")
+            # return tuple(v.reshape(shape) for v in (a, b, c))   — shape glue around a plain tuple return
+            if isinstance(st, ast.Return) and ctx["top"] and isinstance(st.value, ast.Call) and isinstance(st.value.func, ast.Name) \
+                    and st.value.func.id == "tuple" and len(st.value.args) == 1 and isinstance(st.value.args[0], ast.GeneratorExp):
+                ge = st.value.args[0]
+                gen = ge.generators[0]
+                ok = (len(ge.generators) == 1 and not gen.ifs and isinstance(gen.target, ast.Name) and isinstance(gen.iter, ast.Tuple)
+                      and all(isinstance(x, ast.Name) and env.get(x.id) == "num" for x in gen.iter.elts)
+                      and isinstance(ge.elt, ast.Call) and isinstance(ge.elt.func, ast.Attribute) and ge.elt.func.attr == "reshape"
+                      and isinstance(ge.elt.func.value, ast.Name) and ge.elt.func.value.id == gen.target.id
+                      and len(ge.elt.args) == 1 and isinstance(ge.elt.args[0], ast.Name) and ge.elt.args[0].id not in env)
+                if not ok:
+                    raise Refusal(f"return form: {first}")
+                self.notes.append(f"reshape glue on the returned tuple: {first}")
+                ctx["ret"] = "(" + ", ".join(san(x.id) for x in gen.iter.elts) + ")"
+                ctx["rettuple"] = len(gen.iter.elts)
+                return True
             # return <call of a tuple-valued translated function>
             if isinstance(st, ast.Return) and st.value is not None and ctx["top"]:
                 tc = self.tuple_call(st.value, d, env)
@@ -864,9 +882,18 @@ class Translator:
         ret = None
         rettuple = 0
 
+        self.static_names = {}
+
         def flatten(stmts):
             out = []
             for st in stmts:
+                # flag = <presence test decided by the model>   (e.g. `hints = za0 is not None and …`)
+                if (isinstance(st, ast.Assign) and len(st.targets) == 1 and isinstance(st.targets[0], ast.Name)
+                        and isinstance(st.value, (ast.BoolOp, ast.Compare)) and self.presence
+                        and self.static(st.value) is not None):
+                    self.static_names[st.targets[0].id] = self.static(st.value)
+                    notes.append(f"flag decided by the model: {st.targets[0].id} = {self.static_names[st.targets[0].id]} ({ast.unparse(st.value)})")
+                    continue
                 if isinstance(st, ast.If):
                     sv = self.static(st.test)
                     if sv is True:
